@@ -43,6 +43,12 @@ spec_dist_sym(uint32_t dist) /* 1..32768 -> 0..29 */
 #endif
 struct inputs {
         uint16_t codes[NC];
+        uint8_t k; /* the code-length symbol whose histogram entry is checked (arbitrary) */
+        uint8_t p; /* the position of the sequence that is checked (arbitrary) */
+#ifdef RUNS /* structured flavour: the sequence consists of at most RUNS runs */
+        uint16_t bound[RUNS]; /* run j covers [bound[j-1], bound[j]) */
+        uint16_t val[RUNS];
+#endif
 };
 DECLARE_INPUTS
 void
@@ -51,26 +57,46 @@ harness(void)
         VERIF_INPUTS();
         uint64_t counts[HUFF_LEN + 1];
         struct rl_code out[NC + 1];
-        uint16_t exp[NC];
-        uint64_t tally[HUFF_LEN];
+        uint64_t tally = 0;
+#ifdef RUNS
+        /* all sequences of NC lengths made of at most RUNS runs: boundaries and values arbitrary
+         * (equal neighbouring values merge runs, empty runs allowed) */
+        for (int j = 0; j < RUNS; j++) {
+                VASSUME(I.val[j] <= 15 && I.bound[j] <= NC);
+                if (j > 0)
+                        VASSUME(I.bound[j - 1] <= I.bound[j]);
+        }
+        VASSUME(I.bound[RUNS - 1] == NC);
+        for (int i = 0; i < NC; i++) {
+                uint16_t v = I.val[RUNS - 1];
+                for (int j = RUNS - 2; j >= 0; j--)
+                        if (i < I.bound[j])
+                                v = I.val[j];
+                I.codes[i] = v;
+        }
+#endif
         for (int i = 0; i < NC; i++)
                 VASSUME(I.codes[i] <= 15);
+        VASSUME(I.k < HUFF_LEN && I.p < NC);
         for (int i = 0; i <= HUFF_LEN; i++)
                 counts[i] = 0;
-        for (int i = 0; i < HUFF_LEN; i++)
-                tally[i] = 0;
         counts[HUFF_LEN] = 0xA5;
         out[NC].code = 0xA5;
         uint32_t n = rl_encode(I.codes, NC, counts, out);
         VASSERT(n >= 1 && n <= NC, "token count between 1 and the number of lengths");
         VASSERT(out[NC].code == 0xA5 && counts[HUFF_LEN] == 0xA5, "no write past the token / count arrays");
+        /* Expand the tokens as an RFC 1951 3.2.7 reader would; the expansion is observed at the
+         * arbitrary position p (so no expanded array is materialised) */
         uint32_t pos = 0;
+        uint16_t prev = 0xFFFF; /* last expanded length */
+        int covered = 0;
         for (uint32_t t = 0; t < NC; t++) {
                 if (t >= n)
                         break;
                 uint8_t c = out[t].code, e = out[t].extra_bits;
                 VASSERT(c <= 18, "token is a code-length-alphabet symbol 0..18");
-                tally[c]++;
+                if (c == I.k)
+                        tally++;
                 uint32_t rep;
                 uint16_t val;
                 if (c < 16) {
@@ -81,7 +107,7 @@ harness(void)
                         VASSERT(e <= 3, "code 16 extra bits in 0..3 (repeat 3..6)");
                         VASSERT(pos > 0, "code 16 needs a previous length");
                         rep = 3 + e;
-                        val = pos > 0 ? exp[pos - 1] : 0;
+                        val = prev;
                 } else if (c == 17) {
                         VASSERT(e <= 7, "code 17 extra bits in 0..7 (3..10 zeros)");
                         rep = 3 + e;
@@ -92,16 +118,15 @@ harness(void)
                         val = 0;
                 }
                 VASSERT(pos + rep <= NC, "expansion does not overrun the sequence");
-                for (uint32_t k = 0; k < NC; k++)
-                        if (k < rep && pos + k < NC)
-                                exp[pos + k] = val;
+                if (pos <= I.p && I.p < pos + rep) {
+                        VASSERT(val == I.codes[I.p], "expanded length at position p equals the input length (arbitrary p)");
+                        covered = 1;
+                }
+                prev = val;
                 pos += rep;
         }
-        VASSERT(pos == NC, "tokens expand to exactly NC lengths");
-        for (int i = 0; i < NC; i++)
-                VASSERT(exp[i] == I.codes[i], "expanded sequence equals the input sequence");
-        for (int i = 0; i < HUFF_LEN; i++)
-                VASSERT(counts[i] == tally[i], "counts[] is the exact histogram of the emitted tokens");
+        VASSERT(pos == NC && covered, "tokens expand to exactly NC lengths");
+        VASSERT(counts[I.k] == tally, "counts[k] is the exact number of emitted tokens with code k (arbitrary k)");
         VREACHED();
 }
 
@@ -114,6 +139,7 @@ harness(void)
 struct inputs {
         uint16_t last_len;
         uint32_t run_len;
+        uint8_t k;
 };
 DECLARE_INPUTS
 void
@@ -121,11 +147,11 @@ harness(void)
 {
         VERIF_INPUTS();
         uint64_t counts[HUFF_LEN];
-        uint64_t tally[HUFF_LEN];
+        uint64_t tally = 0;
         struct rl_code out[MAXTOK + 1];
-        VASSUME(I.last_len <= 15 && I.run_len >= 1 && I.run_len <= RUNMAX);
+        VASSUME(I.last_len <= 15 && I.run_len >= 1 && I.run_len <= RUNMAX && I.k < HUFF_LEN);
         for (int i = 0; i < HUFF_LEN; i++)
-                counts[i] = tally[i] = 0;
+                counts[i] = 0;
         out[MAXTOK].code = 0xA5;
         struct rl_code *end = write_rl(out, I.last_len, I.run_len, counts);
         uint32_t n = (uint32_t) (end - out);
@@ -137,7 +163,8 @@ harness(void)
                         break;
                 uint8_t c = out[t].code, e = out[t].extra_bits;
                 VASSERT(c <= 18, "token 0..18");
-                tally[c]++;
+                if (c == I.k)
+                        tally++;
                 if (c < 16) {
                         VASSERT(e == 0 && c == I.last_len, "literal token repeats the run's length");
                         total += 1;
@@ -153,8 +180,7 @@ harness(void)
                 }
         }
         VASSERT(total == I.run_len, "tokens expand to exactly run_len copies of last_len");
-        for (int i = 0; i < HUFF_LEN; i++)
-                VASSERT(counts[i] == tally[i], "counts[] exact");
+        VASSERT(counts[I.k] == tally, "counts[k] exact (arbitrary k)");
         VREACHED();
 }
 
